@@ -425,12 +425,50 @@ def run_case(concepts, case, spec):
             return
         d = call(ctx.todict)
         d0 = call(ctx.todict, True)
+        loaded = []
         if d is not RAISED and d0 is not RAISED:
             for dd in (d, d0):
-                call(Context.fromdict, copy.deepcopy(dd))
+                loaded.append(call(Context.fromdict, copy.deepcopy(dd)))
                 call(Context.fromdict, copy.deepcopy(dd), ignore_lattice=True)
                 call(Context.fromdict, copy.deepcopy(dd), require_lattice=True)
                 call(Context.fromdict, copy.deepcopy(dd), raw=True)
+        # what the accessors hand out is the caller's to edit: an accepted context keeps reproducing its input
+        for who, x in [('Context', ctx)] + [('fromdict', l) for l in loaded[:1] if l is not RAISED]:
+            for round_ in range(2):
+                b = call(lambda: x.bools)
+                if b is RAISED:
+                    break
+                try:
+                    if isinstance(b, list):
+                        if round_:
+                            b.reverse()
+                            b.append(tuple(not v for v in b[0]) if b else ())
+                        else:
+                            b.pop(rng.randrange(len(b)))
+                            b.insert(0, ('edited',))
+                        for k, r in enumerate(b):
+                            if isinstance(r, list):
+                                r[:] = [not v for v in r] + [True]
+                    elif isinstance(b, dict):
+                        b.clear()
+                except Exception:
+                    COL.count('returned_bools_not_editable')
+                COL.count('returned_bools_edited_then_asked_again')
+                with core.monitor_code():
+                    ok, err = _represented(x, objects, properties, rows)
+                if not ok:
+                    COL.violation(who, 'representation:bools-follow-the-edits-of-a-list-handed-out-earlier',
+                                  [objects, properties, rows],
+                                  err or [list(x.objects), list(x.properties), x.bools])
+                    break
+            cp = call(x.copy)
+            if cp is not RAISED:
+                with core.monitor_code():
+                    ok, err = _represented(cp, objects, properties, rows)
+                COL.count('copy_judged_after_edits')
+                if not ok:
+                    COL.violation(who, 'representation:copy-differs-from-accepted-input', [objects, properties, rows],
+                                  err or [list(cp.objects), list(cp.properties), cp.bools])
         return
     if case['kind'] == 'triple':
         t = (objects, properties, rows)
